@@ -330,6 +330,27 @@ pub fn run(ctx: &Ctx) -> (&'static str, &'static str) {
                 if (fa.sgn0() == Sgn0Result::Negative) != (a.sgn0() == 1) {
                     return Err(Fail::new("Fq2 sgn0 differs from RFC 9380 sgn0 (m = 2) on a limb-boundary element"));
                 }
+                // negate_if: the identity for NonNegative, the field negation for Negative - as a VALUE (==, is_zero) and in
+                // canonical form (q2_of checks the raw limbs)
+                {
+                    let mut keep = fa;
+                    keep.negate_if(Sgn0Result::NonNegative);
+                    let mut flip = fa;
+                    flip.negate_if(Sgn0Result::Negative);
+                    let mut neg = fa;
+                    neg.negate();
+                    if keep != fa || q2_of(&keep) != a {
+                        return Err(Fail::new("Fq2 negate_if(NonNegative) changed the element"));
+                    }
+                    if flip != neg || q2_of(&flip) != a.neg() || flip.is_zero() != a.is_zero() {
+                        return Err(Fail::new("Fq2 negate_if(Negative) is not the field negation (as a value: ==, is_zero, canonical form)"));
+                    }
+                    let mut sum = flip;
+                    sum.add_assign(&fa);
+                    if !sum.is_zero() {
+                        return Err(Fail::new("Fq2: y + negate_if(y, Negative) != 0"));
+                    }
+                }
                 if !a.is_zero() {
                     let mut neg = fa;
                     neg.negate();
